@@ -18,12 +18,13 @@
    Image names are lists of path components (the harness splits on '/'); flattening, file stems and the
    lexical comparison of names work on the byte strings.
    Not modelled: JSON / cereal pointer bookkeeping, the "x" (2-D position) of an observation which the
-   importer ignores, keypoint / descriptor file contents (a token says whose they are), point colours
+   importer ignores, descriptor file contents (a token says whose keypoints / descriptors they are; keypoint ROWS are modelled
+   separately: export_feat / import_feat), point colours
    (not written to sfm_data), image file transfer, rigs (removed by rigs_remove_inplace first: C06),
    IEEE rounding (floats are the exact rationals they denote, compared to 1e-9).
    The regions file naming is the REPAIRED one (fixes/C14-regions-named-after-view-path.patch); the
    behaviour before the repair is [region_name_legacy] / [export_legacy]. *)
-From Coq Require Import QArith Qabs Qminmax ZArith Bool List String Ascii.
+From Coq Require Import QArith Qabs Qminmax Qround ZArith Bool List String Ascii.
 From KV Require Import Eqb Str AL.
 From KV.Model Require Import MQV MPose.
 Import ListNotations.
@@ -594,21 +595,71 @@ Definition kdata_close (regions : list (string * Z)) (m : kdata (mat * vec)) (o 
   kp_close regions (r_kp m) (r_kp o) &&
   same_map (fun a b : list (Z * Z) => eqb a b) (r_matches m) (r_matches o).
 
+(* ------------------------------------------------------------------ keypoint rows (regions .feat files)
+   _export_openmvg_regions: the first four columns (x, y, scale, orientation) of every keypoint, one line per
+   keypoint, written with '%10.5f' (round half even of the exact binary value to 5 decimals).
+   _import_openmvg_regions: the lines read back as an (n, 4) array, AssertionError unless 4 columns.
+   REPAIRED reader (fixes/C14-import-keypoints-single-or-no-row.patch): any number of lines; before the repair
+   a file of one line (a vector for np.loadtxt) or of no line raised IndexError: [import_feat_legacy]. *)
+Definition kprows := list (list Q).
+Definition Qround_half_even (q : Q) : Z :=
+  let f := Qfloor q in
+  let r := (q - inject_Z f)%Q in
+  if Qle_bool r (1 # 2) then (if Qle_bool (1 # 2) r then (if Z.even f then f else f + 1)%Z else f) else (f + 1)%Z.
+Definition round5 (q : Q) : Q := (inject_Z (Qround_half_even (q * 100000)) / 100000)%Q.
+Definition export_feat (rows : kprows) : kprows := map (fun r => map round5 (firstn 4 r)) rows.
+Definition import_feat (rows : kprows) : option kprows :=
+  if forallb (fun r => Nat.eqb (List.length r) 4) rows then Some rows else None.
+Definition import_feat_legacy (rows : kprows) : option kprows :=
+  match rows with [] | [_] => None | _ => import_feat rows end.
+(* SIFT-like: at least x, y, scale, orientation *)
+Definition feat_ok (rows : kprows) : bool := forallb (fun r => Nat.leb 4 (List.length r)) rows.
+Definition half_1e5 : Q := 1 # 200000.
+
+Fixpoint rows_rel (f : Q -> Q -> bool) (a b : kprows) : bool :=
+  match a, b with
+  | [], [] => true
+  | x :: a', y :: b' => all2 f x y && rows_rel f a' b'
+  | _, _ => false
+  end.
+(* what the exporter wrote in the regions directory vs the model: every file is the export of the keypoints
+   of an image that maps to its name, and every image with keypoints has its file *)
+Definition feats_close (rn : path -> string) (orig : list (path * kprows)) (o : list (string * kprows)) : bool :=
+  forallb (fun e => existsb (fun k => eqb (rn (fst k)) (fst e) && rows_rel qclose (export_feat (snd k)) (snd e)) orig) o &&
+  forallb (fun k => memb (rn (fst k)) (map fst o)) orig.
+(* the keypoints read back after import are, value for value, the numbers of the regions file of the image *)
+Definition kps_close (feats : list (string * kprows)) (o : list (path * kprows)) : bool :=
+  forallb (fun e => match AL.lookup (stem (last (fst e) "")) feats with
+                    | Some rows => match import_feat rows with
+                                   | Some rows' => rows_rel Qeq_bool rows' (snd e)
+                                   | None => false
+                                   end
+                    | None => false
+                    end) o.
+
 Record case := mkCase {
   k_cfg : config; k_data : dataset;
+  k_feats : list (path * kprows);          (* the keypoints of every image that has some (kapture name) *)
   k_in_range : bool;                       (* the quantifier as decided by the harness' oracle *)
   o_export : option sfm;                   (* None: export_openmvg raised *)
-  o_import : option (kdata pose) }.        (* None: import_openmvg raised (or was not run) *)
+  o_feats : list (string * kprows);        (* the .feat files the exporter wrote: stem -> lines *)
+  o_import : option (kdata pose);          (* None: import_openmvg raised (or was not run) *)
+  o_kps : list (path * kprows) }.          (* keypoints of the re-imported dataset (new image name) *)
+
+Definition feats_importable (fs : list (path * kprows)) : bool :=
+  forallb (fun e => match import_feat (export_feat (snd e)) with Some _ => true | None => false end) fs.
 
 Definition check_case (c : case) : bool :=
-  Bool.eqb (in_range (k_cfg c) (k_data c)) (k_in_range c) &&
+  Bool.eqb (in_range (k_cfg c) (k_data c) && forallb (fun e => feat_ok (snd e)) (k_feats c)) (k_in_range c) &&
   match export (k_cfg c) (k_data c), o_export c with
   | None, None => match o_import c with None => true | Some _ => false end
   | Some s, Some so =>
       sfm_close s so &&
-      match import_core s, o_import c with
+      feats_close (region_name (k_cfg c) (k_data c)) (k_feats c) (o_feats c) &&
+      match (if feats_importable (k_feats c) then import_core s else None), o_import c with
       | None, None => true
-      | Some k, Some ko => kdata_close (s_regions s) k ko
+      | Some k, Some ko => kdata_close (s_regions s) k ko && kps_close (o_feats c) (o_kps c) &&
+                           Nat.eqb (List.length (o_kps c)) (List.length (r_kp k))
       | _, _ => false
       end
   | _, _ => false
